@@ -386,7 +386,10 @@ func (w *Workspace) RunDriver(bin string, cases []interface{}, workers int, env 
 		return se.String(), true, fmt.Errorf("driver watchdog fired")
 	}
 	if e != nil {
-		return se.String(), false, fmt.Errorf("driver failed: %v", e)
+		if ee, ok := e.(*exec.ExitError); !ok || ee.ExitCode() != 3 {
+			return se.String(), false, fmt.Errorf("driver failed: %v", e)
+		}
+		// exit 3: the CPU watchdog stopped the driver at a hanging case; partial results are on disk
 	}
 	f, err := os.Open(rf)
 	if err != nil {
